@@ -6,6 +6,7 @@
 //     unique / key / keyref verdicts per constraint.
 // Nothing in here looks at the library.
 #pragma once
+#include <algorithm>
 #include <cmath>
 #include <cstdint>
 #include <cstdlib>
@@ -233,30 +234,37 @@ inline bool name_test(const Step& s, const std::string& ns, const std::string& l
     }
     return false;
 }
-inline void desc_or_self(const Tree& T, int e, std::set<NodeRef>& out) {
-    out.insert({e, -1});
+typedef std::vector<NodeRef> NodeSet;   // sorted, duplicate-free
+inline void desc_or_self(const Tree& T, int e, NodeSet& out) {
+    out.push_back({e, -1});
     for (int k : T[e].kids) desc_or_self(T, k, out);
 }
-inline std::set<NodeRef> eval_path(const Tree& T, const Path& p, int ctx) {
-    std::set<NodeRef> cur{{ctx, -1}};
+inline void norm_set(NodeSet& s) {
+    std::sort(s.begin(), s.end());
+    s.erase(std::unique(s.begin(), s.end(), [](const NodeRef& a, const NodeRef& b) { return a.elem == b.elem && a.attr == b.attr; }), s.end());
+}
+inline NodeSet eval_path(const Tree& T, const Path& p, int ctx) {
+    NodeSet cur{{ctx, -1}};
     for (const Step& s : p) {
-        std::set<NodeRef> nxt;
+        NodeSet nxt;
         for (const NodeRef& n : cur) {
             if (n.attr >= 0) continue;   // attributes have no children/attributes; self::node() on an attribute is not generated
             switch (s.axis) {
-            case AX_SELF: nxt.insert(n); break;   // only self::node() is in the subset
-            case AX_CHILD: for (int k : T[n.elem].kids) if (name_test(s, T[k].ns, T[k].local)) nxt.insert({k, -1}); break;
+            case AX_SELF: nxt.push_back(n); break;   // only self::node() is in the subset
+            case AX_CHILD: for (int k : T[n.elem].kids) if (name_test(s, T[k].ns, T[k].local)) nxt.push_back({k, -1}); break;
             case AX_DESC_OR_SELF: desc_or_self(T, n.elem, nxt); break;
-            case AX_ATTR: for (size_t a = 0; a < T[n.elem].attrs.size(); a++) if (name_test(s, T[n.elem].attrs[a].ns, T[n.elem].attrs[a].local)) nxt.insert({n.elem, (int)a}); break;
+            case AX_ATTR: for (size_t a = 0; a < T[n.elem].attrs.size(); a++) if (name_test(s, T[n.elem].attrs[a].ns, T[n.elem].attrs[a].local)) nxt.push_back({n.elem, (int)a}); break;
             }
         }
+        norm_set(nxt);
         cur.swap(nxt);
     }
     return cur;
 }
-inline std::set<NodeRef> eval_xpath(const Tree& T, const XPathExpr& x, int ctx) {
-    std::set<NodeRef> out;
-    for (auto& p : x.paths) { auto s = eval_path(T, p, ctx); out.insert(s.begin(), s.end()); }
+inline NodeSet eval_xpath(const Tree& T, const XPathExpr& x, int ctx) {
+    NodeSet out;
+    for (auto& p : x.paths) { NodeSet s = eval_path(T, p, ctx); out.insert(out.end(), s.begin(), s.end()); }
+    norm_set(out);
     return out;
 }
 
@@ -332,7 +340,7 @@ struct Oracle {
     std::vector<Entry> qualified(int i, int e) {
         const ICDef& ic = ics[i];
         std::vector<Entry> q;
-        std::set<NodeRef> targets = eval_xpath(T, ic.selector, e);
+        NodeSet targets = eval_xpath(T, ic.selector, e);
         for (const NodeRef& t : targets) {
             if (t.attr >= 0) continue;   // a selector cannot select attributes (not generated)
             v.nTargets++;
@@ -340,7 +348,7 @@ struct Oracle {
             bool complete = true, nillableMember = false, multi = false;
             size_t present = 0;
             for (auto& f : ic.fields) {
-                std::set<NodeRef> ns = eval_xpath(T, f, t.elem);
+                NodeSet ns = eval_xpath(T, f, t.elem);
                 std::vector<std::pair<std::string, std::string>> fa;
                 for (const NodeRef& n : ns) {
                     std::string key, lex;
@@ -461,7 +469,11 @@ inline Claimed judge(const Tree& T, const std::vector<ICDef>& ics, int root, boo
     std::vector<int> nil = {0}; if (c.v.sawNil) nil = {0, 1, 2};
     std::vector<int> nan = {1}; if (c.v.sawNaN) nan = {1, 0};
     std::vector<int> zer = {1}; if (c.v.sawNegZero) zer = {1, 0};
-    std::vector<int> cf = {0}; if (conflictsOpen && c.v.nConflictRemoved) cf = {0, 1};
+    // duplicates inside one violated key/unique reach the ancestors as "conflicting" entries: what a keyref of an ancestor may still find then is
+    // error recovery, not claimed (the violation of the key/unique itself is)
+    bool keyViolated = false;
+    for (size_t i = 0; i < ics.size(); i++) if (ics[i].kind != IC_KEYREF && c.v.viol[i]) keyViolated = true;
+    std::vector<int> cf = {0}; if ((conflictsOpen || keyViolated) && c.v.nConflictRemoved) cf = {0, 1};
     std::vector<int> mm = {0}; if (c.v.nMulti) mm = {0, 1};
     for (int a : nil) for (int b : nan) for (int z : zer) for (int k : cf) for (int m : mm) {
         if (a == 0 && b == 1 && z == 1 && k == 0 && m == 0) continue;
